@@ -39,6 +39,9 @@ var c18ArgLists = []c18Args{
 	{`, 0, -0, 0`, []refsem.Value{refsem.Num(0), refsem.Num(math.Copysign(0, -1)), refsem.Num(0)}},
 	// whole numbers that are not small integers: negative zero, beyond 2^53, beyond 2^63
 	{`, -0, 9007199254740993, 10000000000000000000`, []refsem.Value{refsem.Num(math.Copysign(0, -1)), refsem.Num(9007199254740993), refsem.Num(1e19)}},
+	// doubles no numeral denotes, reached through num(): rendered and padded like any other number
+	{`, num("NaN"), num("-Inf")`, []refsem.Value{refsem.Num(math.NaN()), refsem.Num(math.Inf(-1))}},
+	{`, num("Inf"), num("NaN")`, []refsem.Value{refsem.Num(math.Inf(1)), refsem.Num(math.NaN())}},
 	{`, {k: 1}, "s"`, []refsem.Value{func() refsem.Value { o := refsem.NewObj(); o.O.Set("k", refsem.Num(1)); return o }(), refsem.Str("s")}},
 }
 
